@@ -115,6 +115,14 @@ theorem sim_window (c : DevConfig) (d : DevState) (fd : Bool) (R : Desc.Response
 
 /-! ### Which event starts a streamer, and with what answer -/
 
+theorem ctrlComb_ready' (c : DevConfig) (d : DevState) (n : CycIn) :
+    ctrlComb (cfgOf c) d.stage { envIn d n with readyForResponse := true } =
+      ⟨readyDr d, readySr d, false, readyPing d⟩ := by
+  unfold readyDr readySr readyPing
+  by_cases h0 : d.tokEp = 0 <;> cases hs : d.stage <;> by_cases h1 : d.tokPid = PID_IN <;>
+    by_cases h2 : d.tokPid = PID_PING <;> by_cases h3 : d.tokPid = PID_OUT <;>
+    simp_all [ctrlComb, envIn, targeted, cfgOf, PID_IN, PID_PING, PID_OUT]
+
 /-- The descriptor handler's answer (event level: `descriptorPacket`) as a stream response. -/
 def descResp : Option (List Nat) → Desc.Response
   | none => .stall
@@ -181,6 +189,29 @@ theorem ready_stream (c : DevConfig) (hx : c.extra = []) (d : DevState) (hcfg : 
       simp [StreamState, hty, hd, stdRequest, streamEnd, respOf, Nat.mod_eq_of_lt hcfg]
   · exact absurd h (by simp)
 
+/-- The `ready_for_response` cycle in which the (distributed) descriptor handler, started in this very cycle,
+reports a missing descriptor. -/
+theorem sim_ready_stall (c : DevConfig) (d : DevState) (n : CycIn) (hdr : readyDr d = true) (hs : StreamState d true) :
+    Sim1S (cfgOf c) d (toIdle { d with expectingAck := false })
+      { envIn d (beatIn true Desc.stallBeat n) with readyForResponse := true } (.hs PID_STALL) := by
+  have hsr : readySr d = false := by
+    unfold readyDr at hdr; unfold readySr
+    simp only [Bool.and_eq_true, decide_eq_true_eq] at hdr
+    simp [hdr.1.2]
+  have hpg : readyPing d = false := by
+    unfold readyDr at hdr; unfold readyPing
+    simp only [Bool.and_eq_true, decide_eq_true_eq] at hdr
+    simp [hdr.1.2]
+  refine sim1s_core _ d _ _ _ (hin d (beatH true Desc.stallBeat (noiseH n)) true false false)
+    ⟨true, false, false, false⟩ rfl (fun cs hr => ?_) (fun cs hr => ?_) rfl ?_
+  · have h := ctrlComb_ready' c d (beatIn true Desc.stallBeat n)
+    rw [hr.stage, h, hdr, hsr, hpg]
+  · rw [hr.stage]
+    cases hst : d.stage <;> simp [ctrlNext, envIn, toIdle]
+  · intro hh hr
+    obtain ⟨q1, q2, q3, q4⟩ := hs_req_stall (cfgOf c) d hh (noiseH n) hr hs
+    exact ⟨q1, by simpa using q2, q4, by simp [q3.1, toIdle], by simp [q3.2, toIdle]⟩
+
 /-! ### The expansion of an event -/
 
 /-- The free parameters of an expansion: the free inputs of the idle cycles before / between / after the strobes
@@ -196,12 +227,24 @@ structure GapsS where
   n3     : CycIn := {}
   lat    : Nat := 0
   stream : List CycIn := []
+  /-- the descriptor handler reports a missing descriptor in the start cycle itself (`GetDescriptorHandlerDistributed`;
+  the block handler needs 1-4 cycles: `lat`, `stream`) -/
+  stallNow : Bool := false
 
 /-- The cycles after the `ready_for_response` cycle in which the started streamer answers. -/
 def streamWindow (c : DevConfig) (d1 : DevState) (g : GapsS) : List CycIn :=
   match streamOf c d1 with
   | some (fd, R) => streamSeg d1 fd (Desc.delayed g.lat (Desc.bodyTrace R) (g.stream.map (·.txReady))) g.stream
   | none => []
+
+/-- The event starts the descriptor handler, which answers STALL in the same cycle. -/
+def stallsNow (c : DevConfig) (d1 : DevState) (g : GapsS) : Bool :=
+  g.stallNow && decide (streamOf c d1 = some (true, .stall))
+
+/-- The `ready_for_response` cycle and the started streamer's window. -/
+def readySeg (c : DevConfig) (d1 : DevState) (g : GapsS) : List CycIn :=
+  if stallsNow c d1 g then [{ envIn d1 (beatIn true Desc.stallBeat g.n2) with readyForResponse := true }]
+  else [{ envIn d1 (calm d1 g.n2) with readyForResponse := true }] ++ streamWindow c d1 g
 
 /-- The clock cycles the control endpoint sees for the event `e` received in the event-level state `d`: as
 `expand` (Lemmas/C07RefineMain.lean), with the stream contract: a streamer that has not been started is silent
@@ -213,7 +256,7 @@ def expandS (c : DevConfig) (d : DevState) (e : HostEvent) (g : GapsS) : List Cy
       if addr = d.address then
         let d1 := afterToken d pid ep
         idleS d g.pre ++ ([{ envIn d1 (calm d1 g.n1) with newToken := true }] ++ (idleS d1 g.mid ++
-          ([{ envIn d1 (calm d1 g.n2) with readyForResponse := true }] ++ (streamWindow c d1 g ++ idleS d' g.post))))
+          (readySeg c d1 g ++ idleS d' g.post)))
       else idleS d g.pre ++ idleS d' g.post
   | .data _ p ok =>
       if ok = true then
@@ -233,9 +276,10 @@ def StreamFits (c : DevConfig) (d : DevState) (e : HostEvent) (g : GapsS) : Bool
   match e with
   | .token pid addr ep =>
       if addr = d.address then
-        match streamOf c (afterToken d pid ep) with
-        | some (_, R) => Fits g.lat R (g.stream.map (·.txReady))
-        | none => true
+        if stallsNow c (afterToken d pid ep) g then true
+        else match streamOf c (afterToken d pid ep) with
+          | some (_, R) => Fits g.lat R (g.stream.map (·.txReady))
+          | none => true
       else true
   | _ => true
 
@@ -298,25 +342,62 @@ theorem cycle_refines_event_streams (c : DevConfig) (hx : c.extra = []) (hmp : c
       have htok := SimS.single (sim_newToken_s c d pid ep (calm (afterToken d pid ep) g.n1)
         (calmH_calm (afterToken d pid ep) g.n1))
       have hmid := sim_idleS c (afterToken d pid ep) g.mid
-      have hrdy := SimS.single (sim_ready_s c hx (afterToken d pid ep) (calm (afterToken d pid ep) g.n2)
-        (calmH_calm (afterToken d pid ep) g.n2))
-      cases hso : streamOf c (afterToken d pid ep) with
-      | none =>
-        rw [ready_nostream c _ hso] at hrdy
-        simp only [streamWindow, hso, List.nil_append]
-        exact hpre.none_append (htok.none_append (hmid.none_append (hrdy.append_none (sim_idleS c _ g.post))))
-      | some fr =>
-        obtain ⟨fd, R⟩ := fr
-        simp only [hso] at hfit
-        have hcfg1 : (afterToken d pid ep).config < 256 := hcfg
-        obtain ⟨s1, s2, s3, s4, s5, s6, s7, s8, s9, s10⟩ := ready_stream c hx _ hcfg1 fd R hso
-        rw [s6] at hrdy
-        have hwin := sim_window c _ fd R s1 s2 s3 s4 g.lat g.stream hfit
-        rw [streamSeg_congr s7 s8 s9 s10] at hwin
-        simp only [streamWindow, hso]
-        rw [s5]
-        exact hpre.none_append (htok.none_append (hmid.none_append (hrdy.none_append
-          (hwin.append_none (sim_idleS c _ g.post)))))
+      have hcfg1 : (afterToken d pid ep).config < 256 := hcfg
+      by_cases hsn : stallsNow c (afterToken d pid ep) g = true
+      · -- STALL in the start cycle
+        simp only [readySeg, hsn, if_true]
+        have hso : streamOf c (afterToken d pid ep) = some (true, .stall) := by
+          simp only [stallsNow, Bool.and_eq_true, decide_eq_true_eq] at hsn; exact hsn.2
+        obtain ⟨s1, -, -, -, s5, -, -, -, -, -⟩ := ready_stream c hx _ hcfg1 true .stall hso
+        have hdr : readyDr (afterToken d pid ep) = true := by
+          unfold streamOf at hso
+          split at hso
+          · rename_i hc; exact hc.1
+          · exact absurd hso (by simp)
+        have hm : (reqNowResult c (afterToken d pid ep) (readyDr (afterToken d pid ep)) (readySr (afterToken d pid ep))
+            (readyPing (afterToken d pid ep))).1 = { afterToken d pid ep with expectingAck := true } := by
+          have hh : (afterToken d pid ep).hstate = .getDescriptor := by
+            unfold streamOf at hso
+            split at hso
+            · cases hd : (afterToken d pid ep).hstate <;> simp only [hd] at hso <;>
+                first | rfl | (exact absurd hso (by simp))
+            · exact absurd hso (by simp)
+          have hty : (afterToken d pid ep).setup.type = TYPE_STANDARD := by
+            unfold streamOf at hso
+            split at hso
+            · rename_i hc; exact hc.2
+            · exact absurd hso (by simp)
+          simp only [reqNowResult, hdr, if_true, reqNow, hty, and_self, hh]
+        have hs1 : StreamState (afterToken d pid ep) true := by
+          rw [hm] at s1; exact s1
+        rw [s5, hm]
+        have hst := SimS.single (sim_ready_stall c (afterToken d pid ep) g.n2 hdr hs1)
+        have : streamEnd { afterToken d pid ep with expectingAck := true } Desc.Response.stall
+            = toIdle { afterToken d pid ep with expectingAck := false } := by
+          simp [streamEnd]
+        rw [this]
+        have hr2 : respOf { afterToken d pid ep with expectingAck := true } Desc.Response.stall = .hs PID_STALL := rfl
+        rw [hr2]
+        exact hpre.none_append (htok.none_append (hmid.none_append (hst.append_none (sim_idleS c _ g.post))))
+      · simp only [readySeg, hsn, if_false, Bool.false_eq_true] at hfit ⊢
+        have hrdy := SimS.single (sim_ready_s c hx (afterToken d pid ep) (calm (afterToken d pid ep) g.n2)
+          (calmH_calm (afterToken d pid ep) g.n2))
+        cases hso : streamOf c (afterToken d pid ep) with
+        | none =>
+          rw [ready_nostream c _ hso] at hrdy
+          simp only [streamWindow, hso, List.append_nil]
+          exact hpre.none_append (htok.none_append (hmid.none_append (hrdy.append_none (sim_idleS c _ g.post))))
+        | some fr =>
+          obtain ⟨fd, R⟩ := fr
+          simp only [hso] at hfit
+          obtain ⟨s1, s2, s3, s4, s5, s6, s7, s8, s9, s10⟩ := ready_stream c hx _ hcfg1 fd R hso
+          rw [s6] at hrdy
+          have hwin := sim_window c _ fd R s1 s2 s3 s4 g.lat g.stream hfit
+          rw [streamSeg_congr s7 s8 s9 s10] at hwin
+          simp only [streamWindow, hso]
+          rw [s5]
+          exact hpre.none_append (htok.none_append (hmid.none_append ((hrdy.none_append hwin).append_none
+            (sim_idleS c _ g.post))))
     · have hcore : core c d (.token pid addr ep) = ({ d with tokPid := 0 }, .none) := by
         simp [core, ha]
       simp only [expandS, ha, if_false]
